@@ -309,6 +309,8 @@ theorem read_back (ops : List Writer.Op) (hv : Writer.Op.validAll ops = true) (h
     before the terminating LF is stripped by the reader). Spaces, tabs, empty lines are fine. -/
 def LineOK (l : List UInt8) : Prop := (∀ b ∈ l, b ≠ 10) ∧ l.getLast? ≠ some 13
 
+instance (l : List UInt8) : Decidable (LineOK l) := by unfold LineOK; infer_instance
+
 theorem specLine_line (l rest : List UInt8) (h : LineOK l) :
     Reader.specLine (l ++ 10 :: rest) = (some l, rest) := by
   have hp : ∀ c ∈ l, (fun c : UInt8 => c != 10) c = true := by
